@@ -826,7 +826,7 @@ theorem noLoop_single {d d' : Rat} {s s' : Sim} (h : SimRel d d' s s') :
   have he : exhaustion (withDur d' r).rah = exhaustion r.rah := rfl
   unfold noLoop estimate
   rw [hst, hst']
-  simp only [mapO_singleton, hdur, hd', he]
+  simp only [mapO_singleton, exhKey, hdur, hd', he]
   cases exhaustion r.rah with
   | none => simp
   | some e =>
@@ -899,7 +899,199 @@ theorem getResults_single_dur {ship : Option (List Vec → Option Vec)} {p : Vec
         simp only [Option.map_some, Option.some.injEq, Out.core, Prod.mk.injEq] at h
         exact h.1.symm
 
-/-! ## Stored results stay current -/
+/-! ## Inside the quantifier the simulation does not fail -/
+
+/-- All inputs of a hardener present and inside the quantifier (strictly positive shift amount). -/
+structure RahFull (r : Rah) : Prop where
+  ok : RahOK r
+  shift : ∃ s, r.shift = some s ∧ 0 < s
+  dur : ∃ d, r.dur = some d ∧ 0 < d
+
+/-- The calculator always yields ship resonances. -/
+structure EnvFull (env : Env) : Prop where
+  ok : EnvOK env
+  total : ∀ rs, ∃ s, env.ship rs = some s
+
+theorem mapO_some {α β : Type} {f : α → Option β} : ∀ {l : List α}, (∀ a ∈ l, ∃ b, f a = some b) →
+    ∃ l', mapO f l = some l'
+  | [], _ => ⟨[], rfl⟩
+  | a :: l, h => by
+    obtain ⟨b, hb⟩ := h a (by simp)
+    obtain ⟨bs, hbs⟩ := mapO_some (l := l) (fun x hx => h x (by simp [hx]))
+    exact ⟨b :: bs, by unfold mapO; rw [hb, hbs]⟩
+
+theorem mapO_ne_nil {α β : Type} {f : α → Option β} {l : List α} {l' : List β} (h : mapO f l = some l')
+    (hne : l ≠ []) : l' ≠ [] := by
+  cases l with
+  | nil => exact absurd rfl hne
+  | cons a l => obtain ⟨b, bs, _, _, rfl⟩ := mapO_cons_some h; simp
+
+theorem minList_some {l : List Rat} (h : l ≠ []) : ∃ m, minList l = some m := by
+  cases l with
+  | nil => exact absurd rfl h
+  | cons a l => unfold minList; split <;> exact ⟨_, rfl⟩
+
+theorem sigRound_some {x : Rat} (h : x ≠ 0) (n : Nat) : ∃ y, sigRound x n = some y := sigRound_ne_none h n
+
+theorem advance_some {st : List RS} (hne : st ≠ []) (hg : ∀ r ∈ st, Good r) (hf : ∀ r ∈ st, RahFull r.rah) :
+    ∃ p, advance st = some p := by
+  obtain ⟨rems, hrems⟩ := mapO_some (f := remaining) (l := st) (by
+    intro r hr
+    obtain ⟨d, hd, _⟩ := (hf r hr).dur
+    exact ⟨d - r.cyc, by simp [remaining, hd]⟩)
+  obtain ⟨m, hm⟩ := minList_some (mapO_ne_nil hrems hne)
+  have hmpos : 0 < m := by
+    obtain ⟨hmem, _⟩ := minList_spec hm
+    obtain ⟨r, hr, hrx⟩ := mapO_mem hrems m hmem
+    obtain ⟨d, hd, _⟩ := (hf r hr).dur
+    have : d - r.cyc = m := by simpa [remaining, hd] using hrx
+    have := (hg r hr).cyc_lt d hd
+    linarith
+  obtain ⟨st', hst'⟩ := mapO_some (f := stepCycle m) (l := st) (by
+    intro r hr
+    obtain ⟨d, hd, hdpos⟩ := (hf r hr).dur
+    obtain ⟨a, ha⟩ := sigRound_some (x := r.cyc + m) (by have := (hg r hr).cyc_nonneg; linarith) sigDigits
+    obtain ⟨b, hb⟩ := sigRound_some hdpos.ne' sigDigits
+    unfold stepCycle
+    simp only [hd, ha, hb]
+    split <;> exact ⟨_, rfl⟩)
+  exact ⟨(m, st'), by unfold advance; simp [hrems, hm, hst']⟩
+
+theorem keyOf_some {r : RS} (h : ∀ t, 0 < r.resos.get t) : ∃ k, keyOf r = some k := by
+  obtain ⟨a, ha⟩ := sigRound_some (h .em).ne' sigDigits
+  obtain ⟨b, hb⟩ := sigRound_some (h .expl).ne' sigDigits
+  obtain ⟨c, hc⟩ := sigRound_some (h .kin).ne' sigDigits
+  obtain ⟨d, hd⟩ := sigRound_some (h .therm).ne' sigDigits
+  simp only [Vec.get] at ha hb hc hd
+  exact ⟨(r.cyc, ⟨a, d, c, b⟩), by unfold keyOf; simp only [ha, hb, hc, hd]⟩
+
+theorem afterTick_some {env : Env} (he : EnvFull env) {before : List RS} {tp : Rat} {s : Sim} {st1 : List RS}
+    (hg : ∀ r ∈ st1, Good r) (hf : ∀ r ∈ st1, RahFull r.rah) (htp : 0 ≤ tp)
+    (hc : ∀ r ∈ st1, r.cycled = true → 0 < tp) : ∃ res, afterTick env before tp s st1 = some res := by
+  obtain ⟨ship, hship⟩ := he.total (st1.map (·.resos))
+  have hsp : ∀ t, 0 < ship.get t := he.ok.ship_pos _ _ hship (by
+    intro v hv t
+    obtain ⟨r, hr, rfl⟩ := List.mem_map.mp hv
+    exact (hg r hr).pos t)
+  obtain ⟨st3, h3⟩ := mapO_some (f := shiftIfCycled) (l := st1.map (accum env.profile ship tp)) (by
+    intro r2 hr2
+    obtain ⟨r1, hr1, rfl⟩ := List.mem_map.mp hr2
+    obtain ⟨sh, hsh, _⟩ := (hf r1 hr1).shift
+    by_cases hcy : r1.cycled = true
+    · exact ⟨_, shift_some (r := accum env.profile ship tp r1) hcy hsh⟩
+    · have hcf : r1.cycled = false := by simpa using hcy
+      exact ⟨_, shift_false (r := accum env.profile ship tp r1) hcf⟩)
+  have hg3 : ∀ r ∈ st3, Good r := by
+    intro r3 hr3
+    obtain ⟨r2, hr2, h23⟩ := mapO_mem h3 r3 hr3
+    obtain ⟨r1, hr1, rfl⟩ := List.mem_map.mp hr2
+    have ha := accum_good he.ok hsp htp (hg r1 hr1)
+    exact (shift_good h23 ha.1 (fun hcy => ha.2 (hc r1 hr1 hcy))).1
+  obtain ⟨key, hk⟩ := mapO_some (f := keyOf) (l := st3) (fun r hr => keyOf_some (hg3 r hr).pos)
+  unfold afterTick
+  simp only [hship, h3, hk]
+  split <;> exact ⟨_, rfl⟩
+
+theorem exhaustion_some {r : Rah} (h : RahFull r) : ∃ e, exhaustion r = some e := by
+  obtain ⟨s, hs, hpos⟩ := h.shift
+  unfold exhaustion
+  simp only [hs]
+  have : s / 100 ≠ 0 := (div_pos hpos (by norm_num)).ne'
+  rw [if_neg this]; exact ⟨_, rfl⟩
+
+theorem argmaxFirst_some {α : Type} (key : α → Rat) {l : List α} (h : l ≠ []) : ∃ a, argmaxFirst key l = some a := by
+  cases l with
+  | nil => exact absurd rfl h
+  | cons a l =>
+    unfold argmaxFirst
+    split
+    · exact ⟨_, rfl⟩
+    · split <;> exact ⟨_, rfl⟩
+
+theorem noLoop_some {s : Sim} (hne : s.st ≠ []) (hf : ∀ r ∈ s.st, RahFull r.rah) : ∃ o, noLoop s = some o := by
+  obtain ⟨l, hl⟩ := mapO_some (f := exhKey) (l := s.st) (by
+    intro r hr
+    obtain ⟨e, he⟩ := exhaustion_some (hf r hr)
+    obtain ⟨d, hd, _⟩ := (hf r hr).dur
+    exact ⟨(r, e, (e : Rat) * d), by unfold exhKey; simp only [he, hd]⟩)
+  obtain ⟨x, hx⟩ := argmaxFirst_some (fun x : RS × Int × Rat => x.2.2) (mapO_ne_nil hl hne)
+  unfold noLoop estimate
+  simp only [hl, hx]
+  obtain ⟨r, e, k⟩ := x
+  by_cases hz : ((e : Rat) * 3 / 2).ceil = 0 <;> simp [hz]
+
+theorem run_some {env : Env} (he : EnvFull env) : ∀ (n : Nat) {s : Sim}, s.st ≠ [] → (∀ r ∈ s.st, Good r) →
+    (∀ r ∈ s.st, RahFull r.rah) → ∃ o, run env n s = some o
+  | 0, s, hne, _, hf => by unfold run; exact noLoop_some hne hf
+  | n + 1, s, hne, hg, hf => by
+    obtain ⟨⟨tp, st1⟩, hadv⟩ := advance_some hne hg hf
+    obtain ⟨htp, hg1, hrah⟩ := advance_good hadv hg
+    have hf1 : ∀ r ∈ st1, RahFull r.rah := by
+      intro r hr
+      have : r.rah ∈ st1.map (·.rah) := List.mem_map.mpr ⟨r, hr, rfl⟩
+      rw [hrah] at this
+      obtain ⟨r0, hr0, e⟩ := List.mem_map.mp this
+      exact e ▸ hf r0 hr0
+    obtain ⟨res, hat⟩ := afterTick_some he (before := s.st) (s := s) hg1 hf1 htp.le (fun _ _ _ => htp)
+    unfold run
+    simp only [hadv, hat]
+    cases res with
+    | inl o => exact ⟨o, rfl⟩
+    | inr s' =>
+      obtain ⟨hg', hrah', _⟩ := (afterTick_good he.ok hat hg1 htp.le (fun _ _ _ => htp)).2 s' rfl
+      have hne' : s'.st ≠ [] := by
+        intro e
+        have := congrArg List.length hrah'
+        rw [e, hrah] at this
+        simp at this
+        exact hne (List.length_eq_zero_iff.mp this.symm)
+      have hf' : ∀ r ∈ s'.st, RahFull r.rah := by
+        intro r hr
+        have : r.rah ∈ s'.st.map (·.rah) := List.mem_map.mpr ⟨r, hr, rfl⟩
+        rw [hrah'] at this
+        obtain ⟨r0, hr0, e⟩ := List.mem_map.mp this
+        exact e ▸ hf1 r0 hr0
+      exact run_some he n hne' hg' hf'
+
+/-- Inside the quantifier (all inputs present, shift amount > 0) the simulation produces a result. -/
+theorem simulate_some {env : Env} (he : EnvFull env) (maxT : Nat) {rahs : List Rah} (hne : rahs ≠ [])
+    (hr : ∀ r ∈ rahs, RahFull r) : ∃ o, simulate env maxT rahs = some o := by
+  have hg0 : ∀ r ∈ rahs.map RS.init, Good r := by
+    intro r hr'; obtain ⟨x, hx, rfl⟩ := List.mem_map.mp hr'; exact good_init (hr x hx).ok
+  have hf0 : ∀ r ∈ rahs.map RS.init, RahFull r.rah := by
+    intro r hr'; obtain ⟨x, hx, rfl⟩ := List.mem_map.mp hr'; exact hr x hx
+  have hne0 : rahs.map RS.init ≠ [] := by simpa using hne
+  unfold simulate
+  cases maxT with
+  | zero => exact noLoop_some (s := ⟨rahs.map RS.init, [], 0, false⟩) hne0 hf0
+  | succ m =>
+    simp only []
+    have hc0 : ∀ r ∈ rahs.map RS.init, r.cycled = true → (0 : Rat) < 0 := by
+      intro r hr' hc
+      obtain ⟨x, _, rfl⟩ := List.mem_map.mp hr'
+      simp [RS.init] at hc
+    obtain ⟨res, hat⟩ := afterTick_some he (before := []) (s := ⟨rahs.map RS.init, [], 0, false⟩) hg0 hf0
+      (le_refl 0) hc0
+    rw [hat]
+    cases res with
+    | inl o => exact ⟨o, rfl⟩
+    | inr s' =>
+      obtain ⟨hg', hrah', _⟩ := (afterTick_good he.ok hat hg0 (le_refl 0) hc0).2 s' rfl
+      have hne' : s'.st ≠ [] := by
+        intro e
+        have := congrArg List.length hrah'
+        rw [e] at this
+        simp at this
+        exact hne (List.length_eq_zero_iff.mp this.symm)
+      have hf' : ∀ r ∈ s'.st, RahFull r.rah := by
+        intro r hr'
+        have : r.rah ∈ s'.st.map (·.rah) := List.mem_map.mpr ⟨r, hr', rfl⟩
+        rw [hrah'] at this
+        obtain ⟨r0, hr0, e⟩ := List.mem_map.mp this
+        exact e ▸ hf0 r0 hr0
+      exact run_some he m hne' hg' hf'
+
+/-! ## Stored results are the results of the current inputs -/
 
 variable {σ : Type}
 
@@ -907,37 +1099,58 @@ variable {σ : Type}
 def World.current (shipFn : σ → List Vec → Option Vec) (maxT : Nat) (w : World σ) : List Vec :=
   (getResults (w.ship.map shipFn) w.profile maxT w.inputs).1
 
-/-- Cycle times handed to the simulator are positive (part of the quantifier). -/
-def PosDurOp : Op σ → Prop
+/-- A damage profile as `DmgProfile` accepts it. -/
+def ProfOK (p : Vec) : Prop := (∀ t, 0 ≤ p.get t) ∧ ∃ t, 0 < p.get t
+
+/-- What is assumed of the rest of the calculator, for every ship configuration. -/
+def ShipFnOK (shipFn : σ → List Vec → Option Vec) : Prop :=
+  ∀ s rs, ∃ v, shipFn s rs = some v ∧ ((∀ x ∈ rs, ∀ t, 0 < x.get t) → ∀ t, 0 < v.get t)
+
+/-- Operations inside the quantifier. -/
+def ValidOp : Op σ → Prop
+  | .setRahProfile (some p) => ProfOK p
+  | .setDefProfile p => ProfOK p
+  | .shipMod ts _ => ts ≠ []
+  | .setShift _ v => ∃ s, v = some s ∧ 0 < s
   | .setDur _ v => ∃ d, v = some d ∧ 0 < d
-  | .start r _ _ => ∃ d, r.dur = some d ∧ 0 < d
+  | .setBase _ v => 3 < v.sum ∧ ∀ t, v.get t ≤ 1
+  | .start r _ _ => RahFull r
   | _ => True
 
 structure WInv (shipFn : σ → List Vec → Option Vec) (maxT : Nat) (w : World σ) : Prop where
-  coh : ∀ r, w.res = some r → w.stale = false → r = w.current shipFn maxT
+  coh : ∀ r, w.res = some r → r = w.current shipFn maxT
   empty : w.rahs = [] → w.res = none
-  dur : ∀ x ∈ w.rahs, ∃ d, x.rah.dur = some d ∧ 0 < d
+  full : ∀ x ∈ w.rahs, RahFull x.rah
+  prof : ProfOK w.defProfile ∧ ∀ p, w.rahProfile = some p → ProfOK p
+  /-- while results computed with a ship are stored, the calculator holds every value the simulator depends on -/
+  cached : w.res.isSome → w.ship.isSome →
+    (∀ x ∈ w.rahs, x.shiftC = true) ∧ (1 < w.rahs.length → ∀ x ∈ w.rahs, x.durC = true) ∧ ∀ t, t ∈ w.shipC
+
+theorem mem_allDmg (t : Dmg) : t ∈ allDmg := by cases t <;> simp [allDmg]
+
+theorem profOK_profile {w : World σ} (h : ProfOK w.defProfile ∧ ∀ p, w.rahProfile = some p → ProfOK p) :
+    ProfOK w.profile := by
+  unfold World.profile
+  cases hp : w.rahProfile with
+  | none => exact h.1
+  | some p => exact h.2 p hp
 
 theorem winv_init (shipFn : σ → List Vec → Option Vec) (maxT : Nat) : WInv shipFn maxT (World.init : World σ) :=
-  ⟨by intro r h; simp [World.init] at h, fun _ => rfl, by intro x hx; simp [World.init] at hx⟩
+  ⟨by intro r h; simp [World.init] at h, fun _ => rfl, by intro x hx; simp [World.init] at hx,
+   ⟨⟨by intro t; cases t <;> simp [World.init, Vec.get], ⟨.em, by simp [World.init, Vec.get]⟩⟩,
+    by intro p h; simp [World.init] at h⟩,
+   by intro h; simp [World.init] at h⟩
 
+/-- Dropping the results restores the invariant for any inputs. -/
 theorem winv_clear {shipFn : σ → List Vec → Option Vec} {maxT : Nat} {w : World σ}
-    (he : w.rahs = [] → w.res = none) (hd : ∀ x ∈ w.rahs, ∃ d, x.rah.dur = some d ∧ 0 < d) :
-    WInv shipFn maxT w.clear := by
+    (he : w.rahs = [] → w.res = none) (hf : ∀ x ∈ w.rahs, RahFull x.rah)
+    (hp : ProfOK w.defProfile ∧ ∀ p, w.rahProfile = some p → ProfOK p) : WInv shipFn maxT w.clear := by
   unfold World.clear
   split
   · rename_i h
-    have : w.rahs = [] := List.isEmpty_iff.mp h
-    exact ⟨by intro r hr; rw [he this] at hr; simp at hr, he, hd⟩
-  · exact ⟨by intro r hr; simp at hr, fun _ => rfl, hd⟩
-
-theorem winv_unannounced {shipFn : σ → List Vec → Option Vec} {maxT : Nat} {w : World σ}
-    (he : w.rahs = [] → w.res = none) (hd : ∀ x ∈ w.rahs, ∃ d, x.rah.dur = some d ∧ 0 < d) :
-    WInv shipFn maxT w.unannounced :=
-  ⟨by
-    intro r hr hs
-    have hr' : w.res = some r := hr
-    simp [World.unannounced, hr'] at hs, he, hd⟩
+    have hn := he (List.isEmpty_iff.mp h)
+    exact ⟨by intro r hr; rw [hn] at hr; simp at hr, he, hf, hp, by intro h'; rw [hn] at h'; simp at h'⟩
+  · exact ⟨by intro r hr; simp at hr, fun _ => rfl, hf, hp, by intro h'; simp at h'⟩
 
 theorem markRead_rah (ok : Bool) (l : List RahW) : (markRead ok l).map (·.rah) = l.map (·.rah) := by
   unfold markRead; split
@@ -949,32 +1162,61 @@ theorem markRead_nil {ok : Bool} {l : List RahW} (h : markRead ok l = []) : l = 
   rw [markRead_rah] at this
   exact List.map_eq_nil_iff.mp this
 
-theorem mem_markRead {ok : Bool} {l : List RahW} {x : RahW} (h : x ∈ markRead ok l) : ∃ y ∈ l, x.rah = y.rah := by
+theorem mem_markRead {ok : Bool} {l : List RahW} {x : RahW} (h : x ∈ markRead ok l) :
+    ∃ y ∈ l, x.rah = y.rah ∧ (ok = true → x.shiftC = true ∧ x.durC = true) := by
   unfold markRead at h; split at h
-  · obtain ⟨y, hy, rfl⟩ := List.mem_map.mp h; exact ⟨y, hy, rfl⟩
-  · exact ⟨x, h, rfl⟩
+  · obtain ⟨y, hy, rfl⟩ := List.mem_map.mp h; exact ⟨y, hy, rfl, fun _ => ⟨rfl, rfl⟩⟩
+  · rename_i hok; exact ⟨x, h, rfl, fun e => absurd e hok⟩
 
-theorem winv_fill {shipFn : σ → List Vec → Option Vec} {maxT : Nat} {w : World σ} (h : WInv shipFn maxT w) :
-    WInv shipFn maxT (w.fill shipFn maxT) := by
+/-- With a ship and inputs inside the quantifier a run succeeds. -/
+theorem getResults_ok {shipFn : σ → List Vec → Option Vec} (hs : ShipFnOK shipFn) {s : σ} {p : Vec} (hp : ProfOK p)
+    (maxT : Nat) {rahs : List Rah} (hne : rahs ≠ []) (hr : ∀ r ∈ rahs, RahFull r) :
+    (getResults (some (shipFn s)) p maxT rahs).2.1 = .ok := by
+  have he : EnvFull ⟨shipFn s, p⟩ :=
+    ⟨⟨hp.1, hp.2, fun rs v hv hpos => by
+        obtain ⟨v', hv', h'⟩ := hs s rs
+        have hv'' : shipFn s rs = some v := hv
+        rw [hv''] at hv'; cases hv'; exact h' hpos⟩,
+     fun rs => (hs s rs).imp fun _ h => h.1⟩
+  obtain ⟨o, ho⟩ := simulate_some he maxT hne hr
+  unfold getResults; simp [ho]
+
+theorem winv_fill {shipFn : σ → List Vec → Option Vec} (hs : ShipFnOK shipFn) {maxT : Nat} {w : World σ}
+    (h : WInv shipFn maxT w) : WInv shipFn maxT (w.fill shipFn maxT) := by
   unfold World.fill
   split
   · exact h
   · rename_i hc
     simp only [Bool.or_eq_true, not_or, Bool.not_eq_true] at hc
+    have hne : w.rahs ≠ [] := by intro e; simp [e] at hc
     dsimp only
-    refine ⟨?_, ?_, ?_⟩
-    · intro r hr _
+    refine ⟨?_, ?_, ?_, h.prof, ?_⟩
+    · intro r hr
       simp only [Option.some.injEq] at hr
       subst hr
       unfold World.current World.profile World.inputs
       dsimp only
       rw [markRead_rah]
-    · intro he
-      have : w.rahs = [] := markRead_nil he
-      simp [this] at hc
+    · intro he; exact absurd (markRead_nil he) hne
     · intro x hx
-      obtain ⟨y, hy, hxy⟩ := mem_markRead hx
-      rw [hxy]; exact h.dur y hy
+      obtain ⟨y, hy, hxy, _⟩ := mem_markRead hx
+      rw [hxy]; exact h.full y hy
+    · intro _ hship
+      obtain ⟨s, hs'⟩ := Option.isSome_iff_exists.mp hship
+      have hok : (getResults (w.ship.map shipFn) w.profile maxT w.inputs).2.1 = .ok := by
+        rw [hs', Option.map_some]
+        refine getResults_ok hs (profOK_profile h.prof) maxT ?_ ?_
+        · unfold World.inputs; simpa using hne
+        · intro r hr
+          obtain ⟨x, hx, rfl⟩ := List.mem_map.mp hr
+          exact h.full x hx
+      have hflags : ∀ x ∈ markRead ((getResults (w.ship.map shipFn) w.profile maxT w.inputs).2.1 == Outcome.ok) w.rahs,
+          x.shiftC = true ∧ x.durC = true := by
+        intro x hx
+        obtain ⟨_, _, _, hf⟩ := mem_markRead hx
+        exact hf (by rw [hok]; rfl)
+      refine ⟨fun x hx => (hflags x hx).1, fun _ x hx => (hflags x hx).2, ?_⟩
+      intro t; rw [hs']; exact mem_allDmg t
 
 theorem modify_mem {α : Type} {l : List α} {i : Nat} {f : α → α} {x : α} (h : x ∈ l.modify i f) :
     x ∈ l ∨ ∃ y ∈ l, x = f y := by
@@ -1000,112 +1242,211 @@ theorem modify_eq_nil {α : Type} {l : List α} {i : Nat} {f : α → α} : l.mo
   · intro h; have := congrArg List.length h; simp at this; exact this
   · rintro rfl; simp
 
-theorem winv_step {shipFn : σ → List Vec → Option Vec} {maxT : Nat} {w : World σ} (h : WInv shipFn maxT w)
-    (op : Op σ) (hp : PosDurOp op) : WInv shipFn maxT (w.step shipFn maxT op) := by
-  have dur_mod : ∀ (i : Nat) (f : RahW → RahW), (∀ x, (f x).rah.dur = x.rah.dur) →
-      ∀ x ∈ w.rahs.modify i f, ∃ d, x.rah.dur = some d ∧ 0 < d := by
+/-- All flags true means: an uncached index is out of range, and the update is then void. -/
+theorem modify_void {l : List RahW} {i : Nat} {g : RahW → Bool} (f : RahW → RahW) (hall : ∀ x ∈ l, g x = true)
+    (hun : (l[i]?.map g).getD false = false) : l.modify i f = l := by
+  cases hi : l[i]? with
+  | none => exact List.modify_eq_self (by simpa using List.getElem?_eq_none_iff.mp hi) 
+  | some x =>
+    have hx : x ∈ l := List.mem_of_getElem? hi
+    rw [hi] at hun
+    simp [hall x hx] at hun
+
+theorem map_modify_eq {α β : Type} (g : α → β) (f : α → α) (hf : ∀ x, g (f x) = g x) :
+    ∀ (l : List α) (i : Nat), (l.modify i f).map g = l.map g
+  | [], _ => by simp
+  | a :: l, 0 => by simp [hf]
+  | a :: l, i + 1 => by simp [map_modify_eq g f hf l i]
+
+/-- Without a ship the exposed values are the hardeners' unsimulated resonances, whatever else changed. -/
+theorem current_no_ship {shipFn : σ → List Vec → Option Vec} {maxT : Nat} {w w' : World σ} (hs : w.ship = none)
+    (hs' : w'.ship = none) (hb : w'.rahs.map (·.rah.base) = w.rahs.map (·.rah.base)) :
+    w'.current shipFn maxT = w.current shipFn maxT := by
+  unfold World.current World.inputs getResults
+  simp only [hs, hs', Option.map_none, List.map_map]
+  exact hb
+
+theorem winv_step {shipFn : σ → List Vec → Option Vec} (hs : ShipFnOK shipFn) {maxT : Nat} {w : World σ}
+    (h : WInv shipFn maxT w) (op : Op σ) (hp : ValidOp op) : WInv shipFn maxT (w.step shipFn maxT op) := by
+  have full_mod : ∀ (i : Nat) (f : RahW → RahW), (∀ x, RahFull x.rah → RahFull (f x).rah) →
+      ∀ x ∈ w.rahs.modify i f, RahFull x.rah := by
     intro i f hf x hx
     rcases modify_mem hx with hx | ⟨y, hy, rfl⟩
-    · exact h.dur x hx
-    · rw [hf]; exact h.dur y hy
+    · exact h.full x hx
+    · exact hf y (h.full y hy)
   cases op with
-  | readRah => exact winv_fill h
+  | readRah => exact winv_fill hs h
   | readShip t =>
     simp only [World.step]
     split
     · exact h
-    · have := winv_fill (shipFn := shipFn) (maxT := maxT) h
-      exact ⟨this.coh, this.empty, this.dur⟩
+    · have hf := winv_fill (maxT := maxT) hs h
+      split
+      · exact hf
+      · refine ⟨hf.coh, hf.empty, hf.full, hf.prof, ?_⟩
+        intro h1 h2
+        obtain ⟨a, b, c⟩ := hf.cached h1 h2
+        exact ⟨a, b, fun t' => List.mem_cons_of_mem _ (c t')⟩
   | setRahProfile p =>
     simp only [World.step]
+    have hprof : ProfOK w.defProfile ∧ ∀ q, p = some q → ProfOK q := by
+      refine ⟨h.prof.1, ?_⟩
+      intro q hq; subst hq; exact hp
     split
     · rename_i hpp
-      refine ⟨?_, h.empty, h.dur⟩
-      intro r hr hs
-      have := h.coh r hr hs
-      rw [this]; unfold World.current World.profile World.inputs; simp only [hpp]; rfl
-    · exact winv_clear h.empty h.dur
+      refine ⟨?_, h.empty, h.full, hprof, h.cached⟩
+      intro r hr
+      rw [h.coh r hr]; unfold World.current World.profile World.inputs; simp only [hpp]; rfl
+    · exact winv_clear (w := { w with rahProfile := p }) h.empty h.full hprof
   | setDefProfile p =>
     simp only [World.step]
+    have hprof : ProfOK p ∧ ∀ q, w.rahProfile = some q → ProfOK q := ⟨hp, h.prof.2⟩
     split
-    · exact winv_clear h.empty h.dur
+    · exact winv_clear (w := { w with defProfile := p }) h.empty h.full hprof
     · rename_i hc
-      refine ⟨?_, h.empty, h.dur⟩
-      intro r hr hs
-      have := h.coh r hr hs
-      rw [this]; unfold World.current World.profile World.inputs
+      refine ⟨?_, h.empty, h.full, hprof, h.cached⟩
+      intro r hr
+      rw [h.coh r hr]; unfold World.current World.profile World.inputs
       simp only [Bool.and_eq_true, decide_eq_true_eq, not_and, Bool.not_eq_true, Option.isNone_eq_false_iff,
         Option.isSome_iff_exists, ne_eq] at hc
       by_cases hpd : p = w.defProfile
       · subst hpd; rfl
       · obtain ⟨q, hq⟩ := hc hpd
         simp only [hq, Option.getD_some]
-  | setShip s => exact winv_unannounced (w := { w with ship := s, shipC := [] }) h.empty h.dur
+  | setShip s =>
+    simp only [World.step]
+    split
+    · exact h
+    · exact winv_clear (w := { w with ship := s, shipC := [] }) h.empty h.full h.prof
   | shipMod ts s =>
     simp only [World.step]
     split
     · exact h
-    · split
-      · exact winv_clear (w := { w with ship := some s, shipC := _ }) h.empty h.dur
-      · exact winv_unannounced (w := { w with ship := some s }) h.empty h.dur
+    · rename_i hship
+      split
+      · exact winv_clear (w := { w with ship := some s, shipC := _ }) h.empty h.full h.prof
+      · rename_i hun
+        -- nothing cached among `ts`: then no results are stored
+        have hres : w.res = none := by
+          cases hr : w.res with
+          | none => rfl
+          | some r =>
+            exfalso
+            have hsome : w.ship.isSome = true := by cases hw : w.ship <;> simp_all
+            obtain ⟨_, _, hc⟩ := h.cached (by simp [hr]) hsome
+            obtain ⟨t, ht⟩ := List.exists_mem_of_ne_nil ts hp
+            exact hun (List.any_eq_true.mpr ⟨t, ht, by simpa using hc t⟩)
+        exact ⟨by intro r hr; rw [hres] at hr; simp at hr, h.empty, h.full, h.prof,
+          by intro h1; rw [hres] at h1; simp at h1⟩
   | setShift i v =>
+    obtain ⟨sv, rfl, hsv⟩ := hp
     simp only [World.step]
-    have he : (w.rahs.modify i fun x => { x with rah := { x.rah with shift := v }, shiftC := false }) = [] →
+    have hfull := full_mod i (fun x => { x with rah := { x.rah with shift := some sv }, shiftC := false })
+      (fun x hx => ⟨⟨hx.ok.sum_gt, hx.ok.le_one, by intro s' hs'; cases hs'; exact hsv.le, hx.ok.dur_pos⟩,
+        ⟨sv, rfl, hsv⟩, hx.dur⟩)
+    have he : (w.rahs.modify i fun x => { x with rah := { x.rah with shift := some sv }, shiftC := false }) = [] →
         w.res = none := fun e => h.empty (modify_eq_nil.mp e)
     split
-    · exact winv_clear (w := { w with rahs := _ }) he (dur_mod i _ (fun _ => rfl))
-    · exact winv_unannounced (w := { w with rahs := _ }) he (dur_mod i _ (fun _ => rfl))
+    · exact winv_clear (w := { w with rahs := _ }) he hfull h.prof
+    · rename_i hun
+      have hun' : (w.rahs[i]?.map (·.shiftC)).getD false = false := by simpa using hun
+      by_cases hcase : w.res.isSome ∧ w.ship.isSome
+      · -- every shift amount is cached: the index is out of range and nothing changed
+        obtain ⟨hc1, _, _⟩ := h.cached hcase.1 hcase.2
+        have hvoid := modify_void (g := (·.shiftC))
+          (fun x => { x with rah := { x.rah with shift := some sv }, shiftC := false }) hc1 hun'
+        have e : ({ w with rahs := w.rahs.modify i fun x =>
+            { x with rah := { x.rah with shift := some sv }, shiftC := false } } : World σ) = w := by rw [hvoid]
+        rw [e]; exact h
+      · refine ⟨?_, he, hfull, h.prof, fun h1 h2 => absurd ⟨h1, h2⟩ hcase⟩
+        intro r hr
+        have hr' : w.res = some r := hr
+        have hsh : w.ship = none := by
+          cases hw : w.ship with
+          | none => rfl
+          | some s => exact absurd ⟨by simp [hr'], by simp [hw]⟩ hcase
+        rw [h.coh r hr']
+        exact (current_no_ship (w := w) (w' := { w with rahs := w.rahs.modify i fun x =>
+          { x with rah := { x.rah with shift := some sv }, shiftC := false } }) hsh hsh
+          (map_modify_eq (fun x : RahW => x.rah.base)
+            (fun x => { x with rah := { x.rah with shift := some sv }, shiftC := false }) (fun _ => rfl) w.rahs i)).symm
   | setDur i v =>
     obtain ⟨d', rfl, hd'⟩ := hp
     simp only [World.step]
+    have hfull := full_mod i (fun x => { x with rah := { x.rah with dur := some d' }, durC := false })
+      (fun x hx => ⟨⟨hx.ok.sum_gt, hx.ok.le_one, hx.ok.shift_nonneg, by intro d hd; cases hd; exact hd'⟩,
+        hx.shift, ⟨d', rfl, hd'⟩⟩)
     have he : (w.rahs.modify i fun x => { x with rah := { x.rah with dur := some d' }, durC := false }) = [] →
         w.res = none := fun e => h.empty (modify_eq_nil.mp e)
-    have hdur : ∀ x ∈ w.rahs.modify i fun x => { x with rah := { x.rah with dur := some d' }, durC := false },
-        ∃ d, x.rah.dur = some d ∧ 0 < d := by
-      intro x hx
-      rcases modify_mem hx with hx | ⟨y, _, rfl⟩
-      · exact h.dur x hx
-      · exact ⟨d', rfl, hd'⟩
     split
-    · rename_i hlen
-      refine ⟨?_, he, hdur⟩
-      intro r hr hs
-      have hcur := h.coh r hr hs
-      rw [hcur]
-      unfold World.current World.profile World.inputs
-      simp only []
-      match hw : w.rahs, hlen with
-      | [], _ => simp
-      | [x], _ =>
-        cases i with
-        | zero =>
-          obtain ⟨d, hd, hdpos⟩ := h.dur x (by rw [hw]; simp)
-          simp only [List.modify_cons, if_true, List.modify_nil, List.map_cons, List.map_nil]
-          exact (getResults_single_dur hd hdpos hd' maxT).symm
-        | succ i => simp
-      | _ :: _ :: _, hl => simp at hl
-    · split
-      · exact winv_clear (w := { w with rahs := _ }) he hdur
-      · exact winv_unannounced (w := { w with rahs := _ }) he hdur
+    · exact winv_clear (w := { w with rahs := _ }) he hfull h.prof
+    · rename_i hcond
+      by_cases hlen : 1 < w.rahs.length
+      · have hun' : (w.rahs[i]?.map (·.durC)).getD false = false := by simpa [hlen] using hcond
+        by_cases hcase : w.res.isSome ∧ w.ship.isSome
+        · obtain ⟨_, hc2, _⟩ := h.cached hcase.1 hcase.2
+          have hvoid := modify_void (g := (·.durC))
+            (fun x => { x with rah := { x.rah with dur := some d' }, durC := false }) (hc2 hlen) hun'
+          have e : ({ w with rahs := w.rahs.modify i fun x =>
+              { x with rah := { x.rah with dur := some d' }, durC := false } } : World σ) = w := by rw [hvoid]
+          rw [e]; exact h
+        · refine ⟨?_, he, hfull, h.prof, fun h1 h2 => absurd ⟨h1, h2⟩ hcase⟩
+          intro r hr
+          have hr' : w.res = some r := hr
+          have hsh : w.ship = none := by
+            cases hw : w.ship with
+            | none => rfl
+            | some s => exact absurd ⟨by simp [hr'], by simp [hw]⟩ hcase
+          rw [h.coh r hr']
+          exact (current_no_ship (w := w) (w' := { w with rahs := w.rahs.modify i fun x =>
+            { x with rah := { x.rah with dur := some d' }, durC := false } }) hsh hsh
+            (map_modify_eq (fun x : RahW => x.rah.base)
+              (fun x => { x with rah := { x.rah with dur := some d' }, durC := false }) (fun _ => rfl) w.rahs i)).symm
+      · -- at most one running hardener: its cycle time does not matter
+        refine ⟨?_, he, hfull, h.prof, ?_⟩
+        · intro r hr
+          have hr' : w.res = some r := hr
+          rw [h.coh r hr']
+          unfold World.current World.profile World.inputs
+          simp only []
+          match hw : w.rahs, hlen with
+          | [], _ => simp
+          | [x], _ =>
+            cases i with
+            | zero =>
+              obtain ⟨d, hd, hdpos⟩ := (h.full x (by rw [hw]; simp)).dur
+              simp only [List.modify_cons, if_true, List.modify_nil, List.map_cons, List.map_nil]
+              exact (getResults_single_dur hd hdpos hd' maxT).symm
+            | succ i => simp
+          | _ :: _ :: _, hl => simp at hl
+        · intro h1 h2
+          obtain ⟨a, _, c⟩ := h.cached h1 h2
+          refine ⟨?_, fun hl => absurd (by simpa using hl) hlen, c⟩
+          intro x hx
+          rcases modify_mem hx with hx | ⟨y, hy, rfl⟩
+          · exact a x hx
+          · exact a y hy
   | setBase i v =>
-    exact winv_clear (w := { w with rahs := _ }) (fun e => h.empty (modify_eq_nil.mp e)) (dur_mod i _ (fun _ => rfl))
+    exact winv_clear (w := { w with rahs := _ }) (fun e => h.empty (modify_eq_nil.mp e))
+      (full_mod i _ (fun x hx => ⟨⟨hp.1, hp.2, hx.ok.shift_nonneg, hx.ok.dur_pos⟩, hx.shift, hx.dur⟩)) h.prof
   | start r sc dc =>
-    refine ⟨by intro x hx; simp [World.step] at hx, fun _ => rfl, ?_⟩
+    refine ⟨by intro x hx; simp [World.step] at hx, fun _ => rfl, ?_, h.prof, by intro h1; simp [World.step] at h1⟩
     intro x hx
     simp only [World.step, List.mem_append, List.mem_singleton] at hx
     rcases hx with hx | rfl
-    · exact h.dur x hx
+    · exact h.full x hx
     · exact hp
   | stop i =>
-    refine ⟨by intro x hx; simp [World.step] at hx, fun _ => rfl, ?_⟩
+    refine ⟨by intro x hx; simp [World.step] at hx, fun _ => rfl, ?_, h.prof, by intro h1; simp [World.step] at h1⟩
     intro x hx
-    exact h.dur x (List.mem_of_mem_eraseIdx hx)
+    exact h.full x (List.mem_of_mem_eraseIdx hx)
 
-theorem winv_run {shipFn : σ → List Vec → Option Vec} {maxT : Nat} : ∀ (ops : List (Op σ)) {w : World σ},
-    WInv shipFn maxT w → (∀ op ∈ ops, PosDurOp op) → WInv shipFn maxT (w.run shipFn maxT ops)
+theorem winv_run {shipFn : σ → List Vec → Option Vec} (hs : ShipFnOK shipFn) {maxT : Nat} :
+    ∀ (ops : List (Op σ)) {w : World σ}, WInv shipFn maxT w → (∀ op ∈ ops, ValidOp op) →
+      WInv shipFn maxT (w.run shipFn maxT ops)
   | [], _, h, _ => h
   | op :: ops, w, h, hp => by
-    have := winv_run ops (winv_step h op (hp op (by simp))) (fun o ho => hp o (by simp [ho]))
+    have := winv_run hs ops (winv_step hs h op (hp op (by simp))) (fun o ho => hp o (by simp [ho]))
     simpa [World.run] using this
 
 end Eos.Rah
